@@ -9,8 +9,15 @@ package keystore
 //@ func ensureInt
 //@   nopanic[C20]
 
+// The key-derivation function is invoked on exactly the bytes of the passphrase, on the
+// encrypting and on the decrypting side alike (so the same passphrase derives the same key and
+// no other string is silently treated as equal to it).
 //@ func getKDFKey
+//@   ensures[C20] @kdfinput err == nil ==> kdf_pwlen == uint64(len(auth)) && (forall k uint64 :: k < uint64(len(auth)) ==> kdf_pw[kdf_pwoff + k] == auth[k])
 //@   nopanic[C20]
+
+//@ func EncryptKey
+//@   ensures[C20] @kdfinput err == nil ==> kdf_pwlen == uint64(len(auth)) && (forall k uint64 :: k < uint64(len(auth)) ==> kdf_pw[kdf_pwoff + k] == auth[k])
 
 //@ func decryptKeyV3
 //@   requires keyProtected != nil
